@@ -105,12 +105,12 @@ C16OK(rec) == (rec.op \in {"resize", "shrink"} /\ rec.fail) =>
                        (Live(ToSt(rec.post)) = Live(ToSt(rec.pre)) /\ ToSt(rec.post).cap = ToSt(rec.pre).cap)
 VARIABLE i
 Judge(rec) ==
-    /\ (Level # 2 \/ C16OK(rec) \/ PrintT(<<"L2FAIL", "C16", rec.id>>))
-    /\ (Level # 2 \/ C03OK(rec) \/ PrintT(<<"L2FAIL", "C03", rec.id>>))
-    /\ (Level # 2 \/ C04OK(rec) \/ PrintT(<<"L2FAIL", "C04", rec.id>>))
-    /\ (Level # 2 \/ C17OK(rec) \/ PrintT(<<"L2FAIL", "C17", rec.id>>))
-    /\ (Level # 2 \/ C19OK(rec) \/ PrintT(<<"L2FAIL", "C19", rec.id>>))
-    /\ (Level # 1 \/ StepOK(rec) \/ PrintT(<<"L1DRIFT", "hash", rec.id>>))
+    /\ (IF Level # 2 \/ C16OK(rec) THEN TRUE ELSE PrintT(<<"L2FAIL", "C16", rec.id>>))
+    /\ (IF Level # 2 \/ C03OK(rec) THEN TRUE ELSE PrintT(<<"L2FAIL", "C03", rec.id>>))
+    /\ (IF Level # 2 \/ C04OK(rec) THEN TRUE ELSE PrintT(<<"L2FAIL", "C04", rec.id>>))
+    /\ (IF Level # 2 \/ C17OK(rec) THEN TRUE ELSE PrintT(<<"L2FAIL", "C17", rec.id>>))
+    /\ (IF Level # 2 \/ C19OK(rec) THEN TRUE ELSE PrintT(<<"L2FAIL", "C19", rec.id>>))
+    /\ (IF Level # 1 \/ StepOK(rec) THEN TRUE ELSE PrintT(<<"L1DRIFT", "hash", rec.id>>))
 TInit == i = 1
 TNext == i < Len(Recs) /\ i' = i + 1 /\ Judge(Recs[i + 1])
 TSpec == TInit /\ [][TNext]_i
